@@ -73,6 +73,17 @@ CHECKS = {
              "before being reported; the hard constraints are also checked satisfiable (non-vacuity).",
         note="Trusted: vlib.synth, z3's SMT-LIB parser. The Max-SMT solver is never run. Three recorded findings concern "
              "-push-basic and specifications with max_sk_sz = 0."),
+    "C07": dict(
+        level="model_checking", design="5/C07", engine="z3 Optimize on the real Max-SMT problem + Optimize over E3",
+        technique="MaxSMT: z3 Optimize on the emitted hard+soft constraints vs z3 Optimize over an independent synthesis encoding "
+                  "with an independent price table",
+        text="For every specification with init_progr_len <= 5, each criterion and each encoder option set (order bounds and "
+             "conflicts, memory encoding, grouped/direct soft constraints, optional pruning constraints), z3's Optimize solves "
+             "the real emitted problem; its optimum is decoded by the tool's own reader, replayed on the reference stack "
+             "machine and priced with vlib.cost; the price must equal the minimum over all realizing sequences within the "
+             "bounds computed by Optimize over vlib.synth; an unsatisfiable encoding of a feasible specification is a violation.",
+        note="Trusted: vlib.synth, vlib.cost, z3 Optimize (stand-in for the Max-SMT solver). -push-basic is excluded (C06 "
+             "findings). Larger specifications are outside the claim."),
     "C08": dict(
         level="translation_validation", design="5/C08", engine="pysym on the decision logic + independent cost model on pipeline outputs",
         technique="symbolic execution of the accept/reject and selection functions (AST -> z3) with symbolic cost vectors; "
